@@ -9,7 +9,7 @@ open AscentVerif AscentVerif.Engine
 
 /-- the errors macro expansion can return -/
 def Err.expandErr : Err → Bool
-  | .recMacro | .undefMacro | .macroArgs | .unexpectedToken | .unsupported => true
+  | .recMacro | .undefMacro | .macroArgs | .unexpectedToken | .emptyDisj | .unsupported => true
   | _ => false
 
 theorem expandItem_err (ms : List MacroDef) :
@@ -54,14 +54,16 @@ theorem expandItem_err (ms : List MacroDef) :
           · cases h; rfl
           · split at h
             · cases h; rfl
-            · dsimp only at h
-              split at h
-              · rename_i e1 he1
-                simp only [Except.error.injEq] at h
-                subst h
-                obtain ⟨x, hx, hfx⟩ := mapLazy_error he1
-                exact ih _ _ _ _ hfx
-              · exact (flattenP_error h).elim
+            · split at h
+              · cases h; rfl
+              · dsimp only at h
+                split at h
+                · rename_i e1 he1
+                  simp only [Except.error.injEq] at h
+                  subst h
+                  obtain ⟨x, hx, hfx⟩ := mapLazy_error he1
+                  exact ih _ _ _ _ hfx
+                · exact (flattenP_error h).elim
 
 theorem expandHead_err (ms : List MacroDef) :
     ∀ (fuel : Nat) (hd : HItem) (e : Err), expandHead ms fuel hd = .error e → e.expandErr = true := by
@@ -185,7 +187,7 @@ theorem coreHeads_ok : ∀ (hs : List HItem), (∀ x ∈ hs, ∃ rel n, x = .cla
 /-! ## HIR -/
 
 def Err.hirErr : Err → Bool
-  | .undefRel | .arity | .shadow => true
+  | .undefRel | .arity | .shadow | .aggBoundArg => true
   | _ => false
 
 theorem getRelation_err {ds : List Decl} {n : Name} {a : Nat} {e : Err} (h : getRelation ds n a = .error e) :
@@ -231,14 +233,16 @@ theorem hirEv_err {ds : List Decl} {g : List Var} {ev : Ev} {e : Err} (h : hirEv
   | agg rel args pat bound =>
     simp only [hirEv] at h
     split at h
-    · rename_i e1 he1
-      cases h
-      exact extendGrounded_err _ _ _ he1
+    · cases h; rfl
     · split at h
       · rename_i e1 he1
         cases h
-        exact getRelation_err he1
-      · cases h
+        exact extendGrounded_err _ _ _ he1
+      · split at h
+        · rename_i e1 he1
+          cases h
+          exact getRelation_err he1
+        · cases h
 
 theorem hirBody_err {ds : List Decl} : ∀ (evs : List Ev) (g : List Var) (e : Err), hirBody ds g evs = .error e → e.hirErr = true
   | [], g, e, h => by simp [hirBody] at h
@@ -340,7 +344,7 @@ theorem declsCheck_err : ∀ (ds : List Decl) (e : Err), declsCheck ds = .error 
       · exact declsCheck_err rest e h
 
 def Err.parseErr : Err → Bool
-  | .emptyLattice | .attrOnItem => true
+  | .emptyLattice | .attrOnItem | .emptyDisj => true
   | _ => false
 
 theorem parseItems_err : ∀ (items : List Top) (e : Err), parseItems items = .error e → e.parseErr = true
@@ -359,46 +363,39 @@ theorem parseItems_err : ∀ (items : List Top) (e : Err), parseItems items = .e
     simp only [parseItems] at h
     split at h
     · cases h; rfl
-    · exact parseItems_err rest e h
+    · split at h
+      · cases h; rfl
+      · exact parseItems_err rest e h
   | .incl n :: rest, e, h => by
     simp only [parseItems] at h
     split at h
     · cases h; rfl
     · cases h
 
-/-! ## code generation -/
+/-! ## struct / impl signatures -/
 
-theorem codegenCheck_err {rules : List CoreRule} {sig : Option Sig} {e : Err} (h : codegenCheck rules sig = .error e) :
-    (e = .panicAggBound ∧ (rules.any fun r => r.body.any fun ev => !aggBoundOk ev) = true) ∨
-    ((e = .panicSigName ∨ e = .panicSigGenerics) ∧
-      ∃ sg i, sig = some sg ∧ sg.implName = some i ∧ (i ≠ sg.structName ∨ sg.genericsMatch = false)) := by
-  unfold codegenCheck at h
+def Err.sigErr : Err → Bool
+  | .sigName | .sigGenerics => true
+  | _ => false
+
+theorem sigCheck_err {sig : Option Sig} {e : Err} (h : sigCheck sig = .error e) : e.sigErr = true := by
+  unfold sigCheck at h
   split at h
-  · rename_i hany
-    cases h
-    exact Or.inl ⟨rfl, hany⟩
+  · cases h
   · split at h
     · cases h
-    · rename_i sg
-      split at h
-      · cases h
-      · rename_i i hi
-        split at h
-        · rename_i hne
-          cases h
-          exact Or.inr ⟨Or.inl rfl, sg, i, rfl, hi, Or.inl (by simpa using hne)⟩
-        · split at h
-          · rename_i hg
-            cases h
-            exact Or.inr ⟨Or.inr rfl, sg, i, rfl, hi, Or.inr (by simpa using hg)⟩
-          · cases h
+    · split at h
+      · cases h; rfl
+      · split at h
+        · cases h; rfl
+        · cases h
 
 /-! ## the pipeline -/
 
 theorem compile_error_cases {s : Summary} {e : Err} (h : compile s = .error e) :
     desugar s.macros s.rules = .error e ∨ ∃ rules, desugar s.macros s.rules = .ok rules ∧
       (hirRules s.decls rules = .error e ∨ configCheck s.attrs s.kind.parallel = .error e ∨
-        declsCheck s.decls = .error e ∨ e = .strat ∨ codegenCheck rules s.sig = .error e) := by
+        declsCheck s.decls = .error e ∨ sigCheck s.sig = .error e ∨ e = .strat) := by
   unfold compile at h
   split at h
   · rename_i e1 he1
@@ -419,9 +416,13 @@ theorem compile_error_cases {s : Summary} {e : Err} (h : compile s = .error e) :
           cases h
           exact Or.inr (Or.inr (Or.inl he1))
         · split at h
-          · cases h
-            exact Or.inr (Or.inr (Or.inr (Or.inl rfl)))
-          · exact Or.inr (Or.inr (Or.inr (Or.inr h)))
+          · rename_i e1 he1
+            cases h
+            exact Or.inr (Or.inr (Or.inr (Or.inl he1)))
+          · split at h
+            · cases h
+              exact Or.inr (Or.inr (Or.inr (Or.inr rfl)))
+            · cases h
 
 theorem check_error_cases {s : Summary} {e : Err} (h : check s = .error e) :
     parseItems s.items = .error e ∨ e = .includeInSource ∨ compile s = .error e := by
